@@ -175,6 +175,21 @@ func (l *c02Ledger) probe() *hermes.VerifProbe {
 				}
 			}
 			l.clampLayers += clamped
+			if clamped > 0 && res > tol {
+				l.c.Count("substeps_clamp_added_N", 1)
+			}
+			if g.QDRAIN > 0 {
+				l.c.Count("substeps_drain_flow", 1)
+				if g.Q1[g.DRAIDEP] < 0 {
+					l.c.Count("substeps_drain_flow_with_upward_flux", 1)
+				}
+			}
+			if g.Q1[N] < 0 {
+				l.c.Count("substeps_upward_bottom_flux", 1)
+			}
+			if g.AUFNASUM > l.a0 {
+				l.c.Count("substeps_with_uptake", 1)
+			}
 			if g.QDRAIN > 0 || g.Q1[N] != 0 || g.AUFNASUM > l.a0 || steps > 1 || clamped > 0 || dn != 0 {
 				l.interesting = true
 			}
